@@ -138,6 +138,9 @@ def machOf (toks : List String) : Machine :=
   let m := match (g "ay").splitOn "," with
     | [sel, regs, chip, en] =>
       { m with aySel := hexNatD sel, ayRegs := hexBytes regs, ayChip := hexBytes chip, ayEnabled := boolD en }
+    | [sel, regs, chip, en, env] =>
+      { m with aySel := hexNatD sel, ayRegs := hexBytes regs, ayChip := hexBytes chip, ayEnabled := boolD en,
+               ayEnvAtStart := boolD env }
     | _ => m
   { m with kempston := boolD (g "kemp"), mouse := boolD (g "mouse"),
            ear := boolD (g "ear"), mic := boolD (g "mic") }
@@ -158,7 +161,7 @@ def fmtA (a : Spec.AState) : String :=
   fmtRegs a.regs ++
   s!" halt={bit a.halted} skip={bit a.eiPending} mid={bit a.midInstr} lat={hex8 a.latch} lk={bit a.locked}" ++
   s!" bd={hex8 a.border} bdev={hex8 a.borderShown} pages={",".intercalate pages} shown={",".intercalate shown}" ++
-  s!" aypres={bit a.ayPresent} aysel={toHex 1 a.aySel} ayregs={bytesHex a.ayRegs} aychip={bytesHex a.ayAudible}" ++
+  s!" aypres={bit a.ayPresent} aysel={toHex 1 a.aySel} ayregs={bytesHex a.ayRegs} aychip={bytesHex a.ayAudible} ayenv={bit a.ayEnvAtStart}" ++
   s!" mouse={bit a.mouse}"
 
 /-- model-only extras (not part of the abstract state) -/
